@@ -294,6 +294,66 @@ def stepStoredRaw (env : Env) (l : Limits) (sp : Spelling) (r : Rec) (now : Int)
 def stepStored (env : Env) (l : Limits) (sp : Spelling) (r : Rec) (now : Int) (x : Raised) (dur : Nat) : StoredStep :=
   stepStoredRaw env l sp.asUtc r now x dur
 
+/-! ### The time zone of the operator's process (the ambient environment of `from_storage`)
+
+  Python reads a TZ-naive `datetime` as LOCAL time of the process wherever it has to place it on the
+  time line by itself (`astimezone()`, `timestamp()`, `now()` without `tz=`): `TZ` / `/etc/localtime`
+  of the pod decide then. `_as_utc` does not ask: `val.replace(tzinfo=utc)` attaches UTC to the digits,
+  an aware value is compared/subtracted by its instant. So the zone of the process is an input of the
+  mechanism that the code does not consult; it is a parameter here (`zone` = the offset of the
+  process's local time from UTC in ticks, east positive) so that this can be STATED and so that the
+  variant that does consult it (`val.astimezone(utc)` for every value) has a counterpart. -/
+
+/-- A stored timestamp as `parse_iso8601` returns it: the digits (the wall-clock reading in ticks) and
+    the UTC offset the string carried (`none`: TZ-naive). -/
+structure Stamp where
+  wall : Int
+  off : Option Int
+  deriving DecidableEq, Repr
+
+/-- The instant `t` written with the offset `o`; without one the way the older releases wrote it:
+    `utcnow().isoformat()`, the UTC digits. -/
+def Stamp.spell (t : Int) : Option Int → Stamp
+  | some o => ⟨t + o, some o⟩
+  | none => ⟨t, none⟩
+
+/-- `progression._as_utc` as the code has it, as an instant: an aware value is its instant, a naive one
+    is its digits read as UTC — whatever the zone of the process. -/
+def Stamp.asUtc (_zone : Int) (s : Stamp) : Int :=
+  match s.off with
+  | some o => s.wall - o
+  | none => s.wall
+
+/-- The variant `val.astimezone(utc)` for every value: the same for aware values, a naive one is read
+    as the LOCAL time of the process. -/
+def Stamp.asUtcLocal (zone : Int) (s : Stamp) : Int :=
+  match s.off with
+  | some o => s.wall - o
+  | none => s.wall - zone
+
+/-- With which offsets (`none`: without any) the three timestamps of a record stand in the storage. -/
+structure Offsets where
+  started : Option Int
+  stopped : Option Int
+  delayed : Option Int
+  deriving DecidableEq, Repr
+
+def Offsets.spelling (os : Offsets) : Spelling := ⟨os.started.isNone, os.delayed.isNone⟩
+
+/-- The record `from_storage` makes with the reader `conv` of the record `r` written with the offsets `os`. -/
+def Rec.reread (conv : Stamp → Int) (os : Offsets) (r : Rec) : Rec :=
+  { r with started := conv (Stamp.spell r.started os.started)
+           stopped := r.stopped.map (fun t => conv (Stamp.spell t os.stopped))
+           delayed := r.delayed.map (fun t => conv (Stamp.spell t os.delayed)) }
+
+/-- One cycle on the stored record in a process whose local time is `zone` ticks ahead of UTC: the code. -/
+def stepStoredIn (zone : Int) (env : Env) (l : Limits) (os : Offsets) (r : Rec) (now : Int) (x : Raised) (dur : Nat) : StoredStep :=
+  stepStored env l os.spelling (r.reread (Stamp.asUtc zone) os) now x dur
+
+/-- … and the variant that normalises every stored timestamp with `astimezone(utc)`. -/
+def stepStoredLocal (zone : Int) (env : Env) (l : Limits) (os : Offsets) (r : Rec) (now : Int) (x : Raised) (dur : Nat) : StoredStep :=
+  stepStored env l os.spelling (r.reread (Stamp.asUtcLocal zone) os) now x dur
+
 /-- The whole history of one handler: cycles at arbitrary times, gated by `awakened`. -/
 def run (env : Env) (l : Limits) : Int → Rec → List Step → List Ev
   | _, _, [] => []
